@@ -444,3 +444,25 @@ pub fn persist_discard_bad(path: &Path, data: &[u8]) -> std::io::Result<()> {
     let _ = std::fs::write(path, data);
     Ok(())
 }
+
+
+// ---------------------------------------------------------------------------------------------------------
+// short reads: the count returned by read() bounds what is consumed (C16.R6)
+// ---------------------------------------------------------------------------------------------------------
+pub fn short_read_used_ok(r: &mut dyn std::io::Read, out: &mut Vec<u8>) -> std::io::Result<()> {
+    let mut buf = [0u8; 64];
+    let n = r.read(&mut buf)?;
+    out.extend_from_slice(&buf[..n]);
+    Ok(())
+}
+
+/// only tests the count for zero: the unread tail of `buf` is consumed as if it had been read
+pub fn short_read_ignored_bad(r: &mut dyn std::io::Read, out: &mut Vec<u8>) -> std::io::Result<()> {
+    let mut buf = [0u8; 64];
+    let n = r.read(&mut buf)?;
+    if n == 0 {
+        return Err(std::io::ErrorKind::UnexpectedEof.into());
+    }
+    out.extend_from_slice(&buf);
+    Ok(())
+}
